@@ -39,6 +39,8 @@ MC_TABLE = mcc('MC_Block', 'MC_Table', invariants='Inv_C02_Step Inv_C03_Step Inv
 
 MC_API = mcc('MC_Api', 'MC_Api', invariants='Inv_P_C10 Inv_LiveTreesClean')
 
+MC_LOOPS = mcc('MC_Loops', 'MC_Loops', invariants='Inv_Bound Inv_Shrink Inv_Tab; PROPERTY Terminates (weak fairness)')
+
 # property -> plan
 PLANS = {
     'C02': dict(
@@ -144,7 +146,7 @@ PLANS = {
     ),
     'C01': dict(
         fams=[('c01', dict(quick=3000, thorough=40000), dict(depth=1000)), ('c01', dict(quick=0, thorough=400), dict(depth=30000))],
-        mc=[MC_BLOCK, MC_TABLE],
+        mc=[MC_LOOPS, MC_BLOCK, MC_TABLE],
         model_ok=False,
         timeout_ms=dict(quick=60000, thorough=900000),
         nontrivial=lambda rec: bool(rec.get('runs')) and rec['runs'][0]['res']['k'] in ('ok', 'narrow'),
